@@ -242,8 +242,10 @@ def _pair(ck, prog):
     seqcopy = next(n for n, k in copies.items() if k == "seq")
     cpcopy = next(n for n, k in copies.items() if k == "cp")
     ctors = [c for c in ast.walk(f.node) if isinstance(c, ast.Call) and prog.class_of_ctor(f.mod, c) == "Sequence" and len(c.args) + len(c.keywords) >= 3]
-    ck.shape(len(ctors) == 1 and len(ctors[0].args) == 3, "swapRes: child built with (string, dmax, pattern)", f.loc())
-    a0, a1, a2 = [unparse(a).replace('"', "'").replace(" ", "") for a in ctors[0].args]
+    ck.shape(len(ctors) == 1, "swapRes: child built with (string, dmax, pattern)", f.loc())
+    _, cb = bind_mod.bind(prog, f, ctors[0])
+    ck.shape(cb is not None and {"seq", "dmax", "chargePattern"} <= set(cb), "swapRes: child built with (string, dmax, pattern)", f.loc(ctors[0]))
+    a0, a1, a2 = [unparse(cb[k]).replace('"', "'").replace(" ", "") for k in ("seq", "dmax", "chargePattern")]
     ck.ob("PAIR-swap", construct, a0 == "''.join(%s)" % seqcopy and a1 == "self.dmax" and a2 == cpcopy,
           expected="Sequence(''.join(<swapped residues>), self.dmax, <swapped pattern>)", found=unparse(ctors[0]), slot="child", where=f.loc(ctors[0]))
 
